@@ -35,6 +35,7 @@ require (
 	github.com/youmark/pkcs8 v0.0.0-20200520070018-fad002e585ce // indirect
 	go.chromium.org/luci v0.0.0-20201018155654-3aac261c05da // indirect
 	golang.org/x/crypto v0.0.0-20200728195943-123391ffb6de // indirect
+	golang.org/x/sync v0.0.0-20200625203802-6e8e738ad208 // indirect
 	golang.org/x/sys v0.0.0-20200808120158-1030fc2bf1d9 // indirect
 	golang.org/x/xerrors v0.0.0-20200804184101-5ec99f83aff1 // indirect
 )
